@@ -31,6 +31,8 @@ class Calls:
         tf = self.resolve_translated(cx, f)
         if tf is not None:
             fn, with_self = tf
+            if fn.out_params:
+                raise Unsupported("call of %s, which changes its argument %s (not supported from translated code)" % (fn.name, fn.out_params), e)
             if fn.mutates:
                 raise Unsupported("call of the state-changing method %s inside an expression (only allowed as a whole statement, "
                                   "right-hand side, condition or return value)" % fn.name, e)
@@ -41,6 +43,16 @@ class Calls:
                 return m(cx, e)
         if name is not None and name in self.mod.ext_classes:
             return self.ext_ctor(cx, name, e)
+        om = self.mod.object_method(cx.fn, e)
+        if om is not None:
+            field, o, m = om
+            if m["mutates"]:
+                raise Unsupported("call of the state-changing method %s.%s inside an expression (only allowed as a statement)" % (field, f.attr), e)
+            return self.object_call(cx, e, field, o, m), m["ret"]
+        if isinstance(f, ast.Attribute) and not (isinstance(f.value, ast.Name) and f.value.id == "self" and cx.fn.is_method):
+            r = self.record_getter(cx, e, f)
+            if r is not None:
+                return r
         if isinstance(f, ast.Attribute):
             m = getattr(self, "meth_" + f.attr, None)
             if m is not None:
@@ -60,6 +72,27 @@ class Calls:
                 return fn, False
         if isinstance(f, ast.Name) and f.id in self.mod.funcs and not self.mod.funcs[f.id].cls and f.id not in cx.env:
             return self.mod.funcs[f.id], False
+        return None
+
+    def object_call(self, cx, e, field, o, m):
+        """term `<namespace>.<method> self.<field> args`"""
+        if e.keywords or len(e.args) != len(m["args"]):
+            raise Unsupported("arguments of %s.%s do not match its declared signature" % (field, e.func.attr), e)
+        args = []
+        for a, t in zip(e.args, m["args"]):
+            s, ta = cx.ex(a)
+            args.append(cx.coerce(s, ta, t, e, "argument of %s" % e.func.attr))
+        return "(" + " ".join(["%s.%s" % (o["namespace"], ident(e.func.attr)), "self.%s" % ident(field)] + args) + ")"
+
+    def record_getter(self, cx, e, f):
+        """`obj.get_x()` on a declared record class: an argument-free observer, modelled as a field of the record"""
+        if any(f.attr in r["getters"] for r in self.mod.records.values()):
+            s, t = cx.ex(f.value)
+            cx.resolve_record(t, f.attr, e)
+            if kind(t) == "obj" and t.find().name in self.mod.records and f.attr in self.mod.records[t.find().name]["getters"]:
+                if e.args or e.keywords:
+                    raise Unsupported("observer %s called with arguments" % f.attr, e)
+                return "%s.%s" % (s, ident(f.attr)), self.mod.records[t.find().name]["getters"][f.attr]
         return None
 
     def bind_args(self, cx, fn, e):
@@ -129,7 +162,31 @@ class Calls:
         unify(t, TInt, e, "argument of abs()")
         return "(PyRt.abs %s)" % s, TInt
 
+    def lib_int(self, cx, e):
+        (s, t), = self.one(cx, e)
+        k = cx.need(t, ("int", "rat"), e, "argument of int()")
+        return (s, TInt) if k == "int" else ("(PyRt.truncQ %s)" % s, TInt)
+
+    def lib_math_ceil(self, cx, e):
+        (s, t), = self.one(cx, e)
+        k = cx.need(t, ("int", "rat"), e, "argument of math.ceil")
+        return (s, TInt) if k == "int" else ("(PyRt.ceilQ %s)" % s, TInt)
+
+    def lib_all(self, cx, e, f="all"):
+        (s, t), = self.one(cx, e)
+        cx.need(t, ("list",), e, "argument of %s()" % f)
+        unify(t.find().args[0], TBool, e, "elements of %s()" % f)
+        return "(PyRt.%s %s)" % (f, s), TBool
+
+    def lib_any(self, cx, e):
+        return self.lib_all(cx, e, "any")
+
     def minmax(self, cx, e, f):
+        if len(e.args) == 1 and not e.keywords and f == "max":
+            (s, t), = self.one(cx, e)
+            cx.need(t, ("list", "arr", "set"), e, "argument of max()")
+            unify(t.find().args[0], TInt, e, "elements of max()")
+            return "(PyRt.maxList %s)" % s, TInt
         (a, ta), (b, tb) = self.one(cx, e, 2)
         a, b, t = cx.numeric_join(a, ta, b, tb, e)
         return "(%s %s %s)" % (f, a, b), t
@@ -224,4 +281,4 @@ class Calls:
         return s, t
 
 
-BUILTINS = {"tuple", "list", "set", "len", "sum", "abs", "max", "min", "range", "map"}
+BUILTINS = {"tuple", "list", "set", "len", "sum", "abs", "max", "min", "range", "map", "int", "all", "any"}
